@@ -36,6 +36,13 @@ def witnesses_c07(tier, seed):
             jobs.append('hex %s\n%s' % (which, img.hex()))
             imgs.append(img)
             names.append('hexfile:%s:len=%d' % (which, n))
+            if n in (17, 4097):
+                # whatever is at the output path already (nothing, an empty file, the head of the same output, the same output): the result
+                # is the new file, whole
+                for prior in ('none', 'empty', 'prefix', 'same'):
+                    jobs.append('hex %s %s\n%s' % (which, prior, img.hex()))
+                    imgs.append(img)
+                    names.append('hexfile:%s:len=%d:over-%s' % (which, n, prior))
     res = replay.run_jobs(jobs, timeout_per_job=60)
     out = []
     for name, job, img, r in zip(names, jobs, imgs, res):
@@ -237,6 +244,7 @@ PROPS['C01'] = dict(
     kani=[dict(slice='enc', harnesses=_enc_harnesses(), cex=_enc_cex)],
     cex_replay=_enc_witness_from_cex,
     witnesses=witnesses_enc(),
+    witness_key='enc',
     functions=['instruction::process', 'Operation::info', 'Reg8::number', 'SFlags::number', 'BranchT::number',
                'InstructionOps::get_r8/get_expr/get_index', 'Expr::get_byte', 'Expr::get_bit_index (src/instruction/*.rs, src/expr.rs)'],
     explanation='Kani: 116 harnesses, each one call of the extracted process() with symbolic operand values checked against the oracle '
@@ -262,6 +270,7 @@ PROPS['C04'] = dict(
     kani=[dict(slice='enc', harnesses=_enc_harnesses(), cex=_enc_cex), dict(slice='conv', harnesses=lambda tier: _conv_harnesses(tier))],
     cex_replay=_enc_witness_from_cex,
     witnesses=witnesses_enc(),
+    witness_key='enc',
     functions=PROPS['C01']['functions'],
     explanation=PROPS['C01']['explanation'],
     assumptions=ENC_ASSUME,
@@ -378,8 +387,19 @@ def witnesses_c05(tier, seed):
     via = [w for w in ws[:(300 if tier == 'quick' else 3000)] if w[1] is not None and abs(w[1]) < (1 << 61)]
     for src, e in via:
         jobs.append('build\n.macro m\n.dq @0\n.dq 1-@0\n.dq @0*2\n.endm\n m %s\n' % src)
+    # 'division or remainder by zero and arithmetic overflow fail the build instead of producing a value' -- in EVERY place an expression
+    # is consumed, not only in .dq: a consumer that swallows the error (a default, a skipped directive) produces a build
+    bad = ['1/0', '1%0', '9223372036854775807+1', '-(-9223372036854775807-1)', '9223372036854775807*2', '1<<64', 'exp2(64)']
+    consumers = ['.if %s\n nop\n.endif\n', '.if 0\n nop\n.elif %s\n nop\n.endif\n', '.if 1 || %s\n nop\n.endif\n', '.db %s\n', '.dw %s\n', '.dd %s\n',
+                 ' ldi r16, %s\n', ' ldi r16, low(%s)\n', ' rjmp %s\n', '.equ a = %s\n.db a\n', '.set a = %s\n.db a\n', '.org %s\n nop\n',
+                 '.macro m\n.if @0\n nop\n.endif\n.endm\n m %s\n', '.macro m\n.dw @0\n.endm\n m %s\n']
+    cjobs = ['build\n' + c % b for c in consumers for b in bad]
+    jobs += cjobs
     res = replay.run_jobs(jobs)
     out = []
+    for job, r in zip(cjobs, res[len(jobs) - len(cjobs):]):
+        out.append(WitnessResult('expr-error-must-fail-the-build:' + job[6:].replace('\n', ' / '), job, r.get('status') == 'err',
+                                 dict((k, r.get(k)) for k in ('status', 'code', 'err')), 'build fails', 'expr/'))
     for (src, e), r in zip(ws, res):
         if r.get('status') == 'ok':
             got = int.from_bytes(bytes.fromhex(r['code']), 'little', signed=True)
@@ -406,7 +426,7 @@ PROPS['C05'] = dict(
     level_note='assumes: grammar (precedence!/e_const), to_lowercase/checked_neg std contracts, str injectivity axiom, the vstd '
                'specification of checked_div/checked_rem (rust_div/rust_rem, proved here to be THE truncating quotient/remainder); log2 unspecified',
     technique='Verus recursion/termination proof against a spec interpreter + Kani per-operator step harnesses (recursion stubbed, R14)',
-    verus=['expr'],
+    verus=['expr', 'dir'],   # dir: the .if/.elif arm is a consumer of expression values -- an evaluation error must fail the build there too (#if)
     kani=[dict(slice='exprstep', harnesses=_step_harnesses), dict(slice='conv', harnesses=_conv_harnesses)],
     witnesses=witnesses_c05,
     functions=['Expr::run', 'Expr::run_nested', 'Expr::get_byte/get_bit_index/get_words/get_double_words/get_quad_words (src/expr.rs)'],
@@ -518,6 +538,14 @@ def witnesses_layout(tier, seed, with_org=True):
         ('org_at_running_offset', 'nop\nnop\n.org 2\nl: nop\n.dw l\n', dict(code='0000000000000200')),
         ('org_gap_zero_filled', 'nop\n.org 4\nl: ldi r16, 1\n.dw l\n', dict(code='000000000000000001e00400')),
         ('org_below_offset_rejected', 'nop\nnop\nnop\n.org 2\nnop\n', 'error'),
+        # the operand of .org is an expression: a symbol of a part file (`.org OVF0addr`), arithmetic, parentheses -- its value is the place;
+        # one that cannot be evaluated (or is no expression at all) fails the build, it is never silently ignored
+        ('org_equ_symbol', '.equ vec = 4\n.org vec\nl: nop\n.dw l\n', dict(code='0000000000000000' + '0000' + '0400')),
+        ('org_arithmetic', '.org 2+2\nl: nop\n.dw l\n', dict(code='0000000000000000' + '0000' + '0400')),
+        ('org_symbol_arithmetic_eeprom', '.equ base = 2\n.eseg\n.org base*2+1\nl: .db 7\n.cseg\n.dw l\n', dict(code='0500', eeprom='000000000007')),
+        ('org_division_by_zero_fails', '.org 1/0\nnop\n', 'error'),
+        ('org_unknown_symbol_fails', '.org nowhere\nnop\n', 'error'),
+        ('org_string_fails', '.org "abc"\nnop\n', 'error'),
         ('db_odd_twice', '.db 1\n.db 2\nl: .dw l\n', dict(code='010002000200')),
         ('eeprom_no_pad', '.eseg\n.db 1\n.db 2, 3, 4\nl: .dw l\n.byte 3\n.db 9\n', dict(eeprom='0102030404000000' + '0009'[2:] if False else '01020304040000000009')),
         ('dseg_labels', '.dseg\na: .byte 3\nb: .byte 2\n.cseg\n.dw a, b\n', dict(code='60006300', ram_filling=5)),
@@ -592,6 +620,7 @@ PROPS['C02'] = dict(
     verus=['pass1', 'pass2', 'link', 'data', 'encv', 'dir', 'pass0', 'mexp'],
     depends_on=['C09'],   # the items whose positions the property speaks of include those a macro expansion produces: the splice of pass 0 is presupposed
     witnesses=witnesses_layout,
+    witness_key='layout',
     functions=['builder::pass1::{build_pass_1, pass_1_internal, next_address}', 'builder::pass2::{build_pass_2, pass_2_internal}',
                'directive::{Operand::*, GetData for Vec<Operand>}', 'instruction::process (length), Operation::info'],
     explanation='Oracles: contracts/layout.vinc (item sizes from the property text), labels_after/prefix_ok/offs (pass 1), run2/runsegs folds (pass 2). '
@@ -609,9 +638,10 @@ PROPS['C06'] = dict(
     level_note='as C02; the element conversion is split: range half in Verus (unit EXPR), byte values in Kani (conv) on the leaf view of expressions',
     technique='Verus list-fold invariants on the extracted GetData impl + Kani conversion harnesses + pass1/pass2 contracts',
     verus=['data', 'pass1', 'pass2', 'expr', 'ctxu'],
-    depends_on=['C05', 'C10'],   # the operands are expressions and symbols: their values (C05) and bindings (C10) are presupposed
+    depends_on=['C05', 'C10', 'C09'],   # the operands are expressions and symbols: their values (C05) and bindings (C10) are presupposed; a data directive written inside a macro body gets its operands through the expansion (C09)
     kani=[dict(slice='conv', harnesses=lambda tier: _conv_harnesses(tier))],
     witnesses=lambda tier, seed: witnesses_layout(tier, seed, with_org=False),
+    witness_key='layout-noorg',
     functions=['directive::{Operand::len/get_bytes/get_words/get_double_words/get_quad_words, GetData for Vec<Operand>}',
                'expr::Expr::get_byte/get_words/get_double_words/get_quad_words', 'pass 1 / pass 2 data arms'],
     explanation='list_bytes/op_bytes/alen in contracts/data.vspec are the oracle; elem_bytes is the uninterpreted bridge to the conversions.',
@@ -1146,6 +1176,15 @@ PROPS['C16'] = dict(
 def witnesses_c09(tier, seed):
     import macro_sem
     ws = macro_sem.witnesses(150 if tier == 'quick' else 1500, seed or 2) + macro_sem.grouping_witnesses(120 if tier == 'quick' else 10000, seed or 2)
+    # body text is taken verbatim: `;` inside a character or string literal is no comment; a parameter that is mentioned only in a comment, in
+    # a string or in a branch this call does not select is not 'used' by the call
+    ws += [(".macro m\n cpi @0, ';'\n.endm\n m r16\n", " cpi r16, ';'\n"),
+           ('.macro m\n.db "cmd;", @0\n.endm\n m 7\n', '.db "cmd;", 7\n'),
+           (".macro m\n ldi r16, ';' ; comment ; more\n.endm\n m\n", " ldi r16, ';'\n"),
+           ('.macro m\n.if @0 > 200\n ldi r17, @1\n.endif\n ldi r16, @0\n.endm\n m 5\n', ' ldi r16, 5\n'),
+           ('.macro m\n ldi r16, @0 ; uses @1 later\n.endm\n m 5\n', ' ldi r16, 5\n'),
+           ('.macro m\n.db "a@b", @0\n.endm\n m 1\n', '.db "a@b", 1\n'),
+           ('.macro m\n.if @0 == 1\n ldi r16, @1\n.elif @0 == 2\n ldi r16, @2\n.else\n nop\n.endif\n.endm\n m 1, 7\n m 3\n', ' ldi r16, 7\n nop\n')]
     jobs = []
     for a, b in ws:
         jobs += ['build\n' + a, 'build\n' + b]
